@@ -53,6 +53,8 @@ impl<E: Engine> RateEncoder<E> for LowRateEncoder<E> {
         // IFFT - ORIGINAL
 
         engine.ifft(&mut work, 0, chunk_size, original_count, 0);
+        #[cfg(verif_shuttle)]
+        crate::verif::sched_point();
 
         // COPY IFFT RESULT TO OTHER CHUNKS
 
@@ -201,7 +203,11 @@ impl<E: Engine> RateDecoder<E> for LowRateDecoder<E> {
 
         // EVALUATE POLYNOMIAL
 
+        #[cfg(verif_shuttle)]
+        crate::verif::sched_point();
         E::eval_poly(&mut erasures, GF_ORDER);
+        #[cfg(verif_shuttle)]
+        crate::verif::sched_point();
 
         // MULTIPLY SHARDS
 
@@ -233,6 +239,8 @@ impl<E: Engine> RateDecoder<E> for LowRateDecoder<E> {
         // IFFT / FORMAL DERIVATIVE / FFT
 
         self.engine.ifft(&mut work, 0, work_count, recovery_end, 0);
+        #[cfg(verif_shuttle)]
+        crate::verif::sched_point();
         engine::formal_derivative(&mut work);
         self.engine.fft(&mut work, 0, work_count, recovery_end, 0);
 
